@@ -350,10 +350,10 @@ func runCliScenario(sc cliScenario, run int, res *hx.Result) []cliEvent {
 			// a reply nobody asked for: a tag that is not held (never used, or answered before)
 			r.mu.Lock()
 			tag := p9p.Tag(0x7700 + st.K)
-			if st.K%2 == 1 {
+			switch (run + st.K) % 3 {
+			case 1:
 				tag = r.lastTag // repeated tag, if already answered
-			}
-			if st.K%3 == 2 {
+			case 2:
 				tag = p9p.NOTAG // the reserved tag, which no request ever carries
 			}
 			heldNow := false
@@ -646,7 +646,11 @@ type cliPeer struct {
 }
 
 func newCliPeer(rmsize uint32, rversion string, capacity int) *cliPeer {
-	cli, srv := gconn.Pair(capacity)
+	return newCliPeerAsym(rmsize, rversion, capacity, capacity)
+}
+
+func newCliPeerAsym(rmsize uint32, rversion string, capC2S, capS2C int) *cliPeer {
+	cli, srv := gconn.PairAsym(capC2S, capS2C)
 	p := &cliPeer{cli: cli, srv: srv, raw: p9p.NewChannel(srv, 1<<20)}
 	p.cond = sync.NewCond(&p.mu)
 	bg := context.Background()
@@ -753,6 +757,78 @@ func splitReplyAcrossDeadline(res *hx.Result) int {
 			res.Violate("C05", "reply-split-across-another-calls-deadline", fmt.Sprintf("call A's reply arrived in two pieces (%d + %d bytes) while another call's 150 ms deadline passed in between; A never returned", split, len(fr)-split), rep)
 		}
 		cancelB()
+		p.cli.Close()
+	}
+	return n
+}
+
+// repliesThenClose (C05): ten calls wait for their replies; an eleventh is stuck in its request write (the peer has
+// stopped reading requests), so the handle loop is behind the reader; the peer writes the ten replies and closes.
+// Every reply that was sent belongs to its call: the ten calls return with their own replies.
+func repliesThenClose(res *hx.Result) int {
+	bg := context.Background()
+	n := 0
+	for round := 0; round < 4; round++ {
+		n++
+		p := newCliPeerAsym(p9p.DefaultMSize, "9P2000", 8, 0)
+		sess, err := p9p.CSession(bg, p.cli)
+		if err != nil {
+			res.Violate("harness", "harness:rtc-session", err.Error(), nil)
+			continue
+		}
+		type ret struct {
+			i   int
+			d   p9p.Dir
+			err error
+		}
+		rets := make(chan ret, 16)
+		for i := 0; i < 10; i++ {
+			go func(i int) { d, err := sess.Stat(bg, p9p.Fid(200+i)); rets <- ret{i, d, err} }(i)
+		}
+		reqs := make([]*p9p.Fcall, 10)
+		okAll := true
+		for i := 0; i < 10; i++ {
+			if reqs[i] = p.waitReq(p9p.Fid(200+i), 3*time.Second); reqs[i] == nil {
+				okAll = false
+			}
+		}
+		if !okAll {
+			res.Add("steps_skipped", 1)
+			p.cli.Close()
+			continue
+		}
+		hold := make(chan struct{})
+		p.mu.Lock()
+		p.hold = hold
+		p.mu.Unlock()
+		// the read the peer is already in takes one more request; the one after that blocks in its write
+		go sess.Stat(bg, 298)
+		time.Sleep(5 * time.Millisecond)
+		go sess.Stat(bg, 299)
+		time.Sleep(20 * time.Millisecond) // every one of the ten callers is waiting for its reply by now
+		for i := 9; i >= 0; i-- {
+			p.srv.Write(frameOfFcall(&p9p.Fcall{Type: p9p.Rstat, Tag: reqs[i].Tag, Message: p9p.MessageRstat{Stat: p9p.Dir{Name: fmt.Sprintf("r%d", 200+i)}}}))
+		}
+		p.srv.Close()
+		close(hold)
+		bad := ""
+		for k := 0; k < 10; k++ {
+			select {
+			case r := <-rets:
+				if r.err != nil || r.d.Name != fmt.Sprintf("r%d", 200+r.i) {
+					bad = fmt.Sprintf("call %d returned %q, %v", 200+r.i, r.d.Name, r.err)
+				}
+			case <-time.After(4 * time.Second):
+				bad = "a call did not return within 4 s"
+			}
+			if bad != "" {
+				break
+			}
+		}
+		if bad != "" {
+			res.Violate("C05", "reply-sent-before-close-not-delivered", "ten calls were waiting for their replies (an eleventh was stuck in its request write: the peer had stopped reading requests); the peer wrote the ten replies, then closed the connection: "+bad,
+				map[string]interface{}{"engine": "client", "replies_then_close": round})
+		}
 		p.cli.Close()
 	}
 	return n
@@ -899,6 +975,7 @@ func Client(args []string) {
 		res.Set("stalled_peer_cases", stalledPeerThenFault(res))
 	} else {
 		res.Set("split_reply_cases", splitReplyAcrossDeadline(res))
+		res.Set("replies_then_close_cases", repliesThenClose(res))
 	}
 	var scs []cliScenario
 	if err := hx.ReadNDJSON(*scPath, func(b []byte) error {
